@@ -16,8 +16,9 @@ import progs
 import events
 import specdiff
 
-THEOREM_MODULES = ["Yarel.Props.C09"]
-REQUIRED_THEOREMS = ["chain_ok", "reject_untouched", "handover_first_call", "handover_resume_repaired", "handover_yield",
+THEOREM_MODULES = ["Yarel.Props.C09", "Yarel.Props.SpecFibers"]
+REQUIRED_THEOREMS = ["save_then_load_restores_registers", "save_touches_only_own_fiber", "yield_hands_value_to_caller", "finish_hands_value_to_caller",
+                     "call_finished_rejected", "call_called_rejected", "yield_at_root_rejected", "chain_ok", "reject_untouched", "handover_first_call", "handover_resume_repaired", "handover_yield",
                      "handover_finish", "isolation_load", "isolation_unload", "active_fiber_dual"]
 LEVEL = "proof"
 ASSUMPTIONS = [
